@@ -5,7 +5,8 @@ from contracts import pycdlibio as P
 
 
 def units(tier):
-    return [Unit(F.Mastered, {'script': s}) for s in sorted(F.SCRIPTS)] + [Unit(F.Reopened, {'script': s, 'edit': False}) for s in sorted(F.SCRIPTS)] + \
+    scripts = sorted(F.SCRIPTS) + F.random_names(tier)
+    return [Unit(F.Mastered, {'script': s}) for s in scripts] + [Unit(F.Reopened, {'script': s, 'edit': False}) for s in scripts] + \
         [Unit(D.RecalcStep), Unit(D.WriterStep), Unit(P.CopyDataYield), Unit(P.InodeOpen, {'location': 1}), Unit(P.InodeOpen, {'location': 2}),
          Unit(P.InodeOpen, {'location': 2, 'managed': True}), Unit(D.RecalcWhole, {'n': 3, 'index': 1})] + \
         [Unit(D.DRRoundTrip, {'len_fi': n, 'xa': False}) for n in (1, 8, 13)]
